@@ -316,3 +316,352 @@ Section OneQueue.
       + cbn [length app] in *. rewrite HR in *. replace (m + Z.of_nat 0) with m in HV by lia. eapply IH; eassumption.
   Qed.
 End OneQueue.
+
+(* ========================================================================================== *)
+(* Part B: the composed receiver                                                                *)
+(* ========================================================================================== *)
+From Sctp Require Import RPQProofs.
+
+Lemma e2e_get_put_same s q : forall l, e2e_get s (e2e_put s q l) = Some q.
+Proof.
+  induction l as [|[k x] t IH]; cbn [e2e_put e2e_get]; [rewrite Z.eqb_refl; reflexivity|].
+  destruct (k =? s) eqn:E1; cbn [e2e_get]; [rewrite Z.eqb_refl; reflexivity|].
+  destruct (s <? k) eqn:E2; cbn [e2e_get]; [rewrite Z.eqb_refl; reflexivity|]. rewrite E1. exact IH.
+Qed.
+
+Lemma e2e_get_put_other s s' q : s <> s' -> forall l, e2e_get s' (e2e_put s q l) = e2e_get s' l.
+Proof.
+  intros N. induction l as [|[k x] t IH]; cbn [e2e_put e2e_get].
+  - replace (s =? s') with false by lia. reflexivity.
+  - destruct (k =? s) eqn:E1; cbn [e2e_get].
+    + replace (s =? s') with false by lia. replace (k =? s') with false by lia. reflexivity.
+    + destruct (s <? k) eqn:E2; cbn [e2e_get].
+      * replace (s =? s') with false by lia. reflexivity.
+      * destruct (k =? s'); [reflexivity|exact IH].
+Qed.
+
+Lemma can_push_push q t : can_push q t = true -> snd (push q t) = true.
+Proof.
+  unfold can_push, push. destruct (has_chunk q t), (sna32LTE t (cum q)), (sna32GT t (wrap32 (cum q + max_off q)));
+    cbn; intros H; try discriminate; reflexivity.
+Qed.
+
+Lemma not_can_push_push q t : can_push q t = false -> snd (push q t) = false.
+Proof.
+  unfold can_push, push. destruct (has_chunk q t), (sna32LTE t (cum q)), (sna32GT t (wrap32 (cum q + max_off q)));
+    cbn; intros H; try discriminate; reflexivity.
+Qed.
+
+(* an index accepted by the bitmap was not accepted before *)
+Lemma J_accept_new k0 q g i :
+  J k0 (q, g) -> - H31 < i - gK g < H31 -> snd (push q (wrap32 i)) = true -> ~ In i (gacc g).
+Proof.
+  intros [I Hc Hh Hcov Hmono] Hk Hp. cbn [fst snd] in *.
+  assert (Ht : in32 (wrap32 i)) by (unfold in32, wrap32; lia).
+  apply (push_result _ _ I Ht) in Hp. destruct Hp as [Hr Hn].
+  destruct (dist_of_index (gK g) i Hk) as [Dpos Dneg]. rewrite <- Hc in Dpos, Dneg.
+  destruct (Z_lt_le_dec (i - gK g) 0) as [Hneg|Hpos]; [specialize (Dneg Hneg); destruct (inv_off _ I); lia|].
+  rewrite (Dpos Hpos) in *. intros X. apply Hn. apply Hh; [lia|].
+  replace (gK g + (i - gK g)) with i by lia. exact X.
+Qed.
+
+(* the pop loop on a bitmap with its ghost *)
+Fixpoint gpop_loop (fuel : nat) (sg : rpq * ghost) : rpq * ghost :=
+  match fuel with
+  | O => sg
+  | S f => if snd (pop (fst sg) false) then gpop_loop f (gstep sg (EPop false)) else sg
+  end.
+Definition gpops (sg : rpq * ghost) : rpq * ghost := gpop_loop (S (Z.to_nat (size (fst sg)))) sg.
+
+Lemma pop_fail_same q : snd (pop q false) = false -> fst (pop q false) = q.
+Proof. unfold pop. destruct (has_chunk q (wrap32 (cum q + 1))); cbn; [discriminate|reflexivity]. Qed.
+
+Lemma gpop_loop_fst : forall fuel q g, fst (gpop_loop fuel (q, g)) = e2e_pop_loop fuel q.
+Proof.
+  induction fuel as [|f IH]; intros q g; [reflexivity|]. cbn [gpop_loop e2e_pop_loop fst].
+  destruct (pop q false) as [q' ok] eqn:E. cbn [snd]. destruct ok.
+  - cbn [gstep]. rewrite E. cbn [fst snd]. apply IH.
+  - cbn [fst]. pose proof (pop_fail_same q) as H. rewrite E in H. cbn in H. symmetry. apply H. reflexivity.
+Qed.
+
+Lemma gpop_loop_J k0 : forall fuel sg, J k0 sg ->
+  J k0 (gpop_loop fuel sg) /\ gacc (snd (gpop_loop fuel sg)) = gacc (snd sg) /\ gK (snd sg) <= gK (snd (gpop_loop fuel sg)).
+Proof.
+  induction fuel as [|f IH]; intros sg HJ; cbn [gpop_loop]; [split; [assumption|split; [reflexivity|lia]]|].
+  destruct (snd (pop (fst sg) false)) eqn:E; [|split; [assumption|split; [reflexivity|lia]]].
+  destruct (gstep_J k0 sg (EPop false) HJ I) as [HJ' HM].
+  destruct (IH _ HJ') as (A & B & C). split; [exact A|]. split; [|lia].
+  rewrite B. destruct sg as [q g]. cbn [gstep fst snd] in *. rewrite E. reflexivity.
+Qed.
+
+Section Compose.
+  Variable U : Z -> option rqchunk.                 (* what the sender put at TSN index i *)
+  Variable own : Z -> option (Z * Z * Z).           (* index -> (stream, message number, fragment number) *)
+  Variable T : Z -> Z -> Z.
+  Variable nfr : Z -> Z -> Z.
+  Variable frag : Z -> Z -> Z -> list Z.
+  Variable mppi : Z -> Z -> Z.
+  Hypothesis Hnfr : forall s k, 1 <= nfr s k < 2147483648.
+  Definition uchunk (s k j : Z) : rqchunk := qchunk s (T s) (nfr s) (frag s) (mppi s) k j.
+  Hypothesis Hwf : forall i c, U i = Some c ->
+    exists s k j, own i = Some (s, k, j) /\ 0 <= k /\ 0 <= j < nfr s k /\ i = T s k + j /\ c = uchunk s k j.
+
+  Definition pairs (s : Z) (l : list Z) : list (Z * Z) :=
+    flat_map (fun i => match own i with
+                       | Some (s', k, j) => if s' =? s then [(k, j)] else []
+                       | None => []
+                       end) l.
+
+  Definition SQInv (s : Z) := QInv s (T s) (nfr s) (frag s) (mppi s).
+
+  (* receiver + bitmap ghost + number of messages read per stream *)
+  Definition cstate := (e2e_rcv * ghost * (Z -> Z))%type.
+
+  Definition CI (k0 : Z) (cs : cstate) : Prop :=
+    let '(st, g, m) := cs in
+    J k0 (e2e_pq st, g) /\ e2e_il st = false /\
+    (forall i, In i (gacc g) -> U i <> None) /\
+    (forall s, match e2e_get s (e2e_streams st) with
+               | Some q => SQInv s q (m s) (pairs s (gacc g))
+               | None => m s = 0 /\ pairs s (gacc g) = []
+               end).
+
+  Inductive e2e_ev := EvArr (i : Z) (ok : bool) | EvRead (sid b : Z).
+
+  Definition cstep (cs : cstate) (e : e2e_ev) : cstate :=
+    let '(st, g, m) := cs in
+    match e with
+    | EvArr i ok =>
+        match U i with
+        | None => cs
+        | Some c =>
+            let '(st', out) := e2e_recv_data st c ok in
+            let g' := match out with
+                      | EoStored (RqOk _) | EoNotAcceptable => snd (gpops (gstep (e2e_pq st, g) (EArr i)))
+                      | EoStored _ => snd (gstep (e2e_pq st, g) (EArr i))
+                      | EoFullDropped => snd (gpops (e2e_pq st, g))
+                      | _ => g
+                      end in
+            (st', g', m)
+        end
+    | EvRead s b =>
+        let '(st', r) := e2e_read st s b in
+        (st', g, match r with RdOk _ _ _ => fun x => if x =? s then m s + 1 else m x | _ => m end)
+    end.
+
+  Definition cout (cs : cstate) (e : e2e_ev) : list (Z * list rqchunk * Z) :=
+    match e with
+    | EvRead s b => match snd (e2e_read (fst (fst cs)) s b) with RdOk _ ppi del => [(s, del, ppi)] | _ => [] end
+    | _ => []
+    end.
+
+  Fixpoint couts (cs : cstate) (evs : list e2e_ev) : list (Z * list rqchunk * Z) :=
+    match evs with [] => [] | e :: t => cout cs e ++ couts (cstep cs e) t end.
+
+  (* H_tsn and H_ssn for one event *)
+  Definition cev_ok (cs : cstate) (e : e2e_ev) : Prop :=
+    let '(st, g, m) := cs in
+    match e with
+    | EvArr i _ =>
+        - H31 < i - gK g < H31 /\
+        match own i with Some (s, k, _) => k < m s + 32768 | None => True end
+    | EvRead _ _ => True
+    end.
+
+  Fixpoint crun_ok (cs : cstate) (evs : list e2e_ev) : Prop :=
+    match evs with [] => True | e :: t => cev_ok cs e /\ crun_ok (cstep cs e) t end.
+
+  Lemma pairs_cons_own s i l k j : own i = Some (s, k, j) -> pairs s (i :: l) = (k, j) :: pairs s l.
+  Proof. intros H. unfold pairs. cbn [flat_map]. rewrite H, Z.eqb_refl. reflexivity. Qed.
+
+  Lemma pairs_cons_other s s' i l k j : own i = Some (s', k, j) -> s' <> s -> pairs s (i :: l) = pairs s l.
+  Proof. intros H N. unfold pairs. cbn [flat_map]. rewrite H. replace (s' =? s) with false by lia. reflexivity. Qed.
+
+  Lemma pairs_in s l k j : (forall i, In i l -> U i <> None) -> In (k, j) (pairs s l) -> In (T s k + j) l.
+  Proof.
+    intros HU Hin. unfold pairs in Hin. apply in_flat_map in Hin. destruct Hin as (i & Hi & Hp).
+    destruct (U i) as [c|] eqn:Eu; [|exfalso; apply (HU i Hi); exact Eu].
+    destruct (Hwf i c Eu) as (s0 & k0 & j0 & Ho & _ & _ & Ei & _). rewrite Ho in Hp.
+    destruct (s0 =? s) eqn:Es; [|destruct Hp]. destruct Hp as [Hp|[]]. inversion Hp; subst.
+    assert (s0 = s) by lia. subst. exact Hi.
+  Qed.
+
+  Lemma SQInv_new s mx : SQInv s (rq_new s mx) 0 [].
+  Proof.
+    unfold SQInv, QInv, rq_new. cbn [rq_inter rq_unordered rq_si rq_nextSSN rq_ordered map].
+    repeat split; try reflexivity; try lia; try constructor; intros; lia.
+  Qed.
+
+  Lemma cstep_CI k0 cs e : CI k0 cs -> cev_ok cs e -> CI k0 (cstep cs e).
+  Proof.
+    destruct cs as [[st g] m]. intros (HJ & Hil & HU & HS) Hok. destruct e as [i ok|s b]; cbn [cstep].
+    - (* arrival *)
+      destruct (U i) as [c|] eqn:Eu; [|split; [assumption|split; [assumption|split; assumption]]].
+      destruct (Hwf i c Eu) as (s & k & j & Ho & Hk & Hj & Ei & Ec).
+      cbn [cev_ok] in Hok. rewrite Ho in Hok. destruct Hok as [Htsn Hssn].
+      assert (Etsn : rqc_tsn c = wrap32 i) by (rewrite Ec, Ei; reflexivity).
+      assert (Esi : rqc_si c = s) by (rewrite Ec; reflexivity).
+      assert (Eid : rqc_idata c = false) by (rewrite Ec; reflexivity).
+      unfold e2e_recv_data. rewrite Eid, Hil. cbn [Bool.eqb negb]. cbv iota.
+      rewrite Etsn, Esi.
+      destruct (can_push (e2e_pq st) (wrap32 i)) eqn:Ecp.
+      + (* acceptable *)
+        pose proof (HS s) as HSs.
+        set (goc := match e2e_get s (e2e_streams st) with
+                    | Some q => Some (q, e2e_streams st)
+                    | None => if ok then Some (rq_new s (e2e_maxent st), e2e_put s (rq_new s (e2e_maxent st)) (e2e_streams st)) else None
+                    end).
+        assert (Hgoc : match goc with
+                       | None => True
+                       | Some (q, streams1) =>
+                           SQInv s q (m s) (pairs s (gacc g)) /\ e2e_get s streams1 = Some q /\
+                           (forall s', s' <> s -> e2e_get s' streams1 = e2e_get s' (e2e_streams st))
+                       end).
+        { unfold goc. destruct (e2e_get s (e2e_streams st)) as [q|] eqn:Eg.
+          - split; [exact HSs|]. split; [exact Eg|reflexivity].
+          - destruct ok; [|exact I]. destruct HSs as [Hm0 Hp0]. rewrite Hm0, Hp0.
+            split; [apply SQInv_new|]. split; [apply e2e_get_put_same|].
+            intros s' N. apply e2e_get_put_other. lia. }
+        fold goc. destruct goc as [[q streams1]|]; [|split; [assumption|split; [assumption|split; assumption]]].
+        destruct Hgoc as (HQ & Hget & Hoth).
+        destruct (rq_admit (e2e_credit (e2e_buf st) streams1) (last_tsn_received (e2e_pq st)) (wrap32 i)).
+        * (* handed to the stream *)
+          pose proof (can_push_push _ _ Ecp) as Hpush.
+          pose proof (J_accept_new k0 _ _ i HJ Htsn Hpush) as Hnew.
+          destruct (gstep_J k0 (e2e_pq st, g) (EArr i) HJ Htsn) as [HJ1 _].
+          assert (Eg1 : gstep (e2e_pq st, g) (EArr i) = (fst (push (e2e_pq st) (wrap32 i)), mkGhost (gK g) (i :: gacc g) (gskip g))).
+          { cbn [gstep]. rewrite Hpush. reflexivity. }
+          assert (HQ' : SQInv s (fst (rq_push q c)) (m s) (pairs s (i :: gacc g))).
+          { rewrite (pairs_cons_own s i _ k j Ho), Ec. apply QInv_push; try assumption; try apply Hnfr.
+            intros Hin. apply Hnew. rewrite Ei. apply (pairs_in s); assumption. }
+          assert (HU' : forall i0, In i0 (i :: gacc g) -> U i0 <> None).
+          { intros i0 [<-|Hi0]; [congruence|apply HU; exact Hi0]. }
+          assert (HS' : forall s0, match e2e_get s0 (e2e_put s (fst (rq_push q c)) streams1) with
+                                   | Some q0 => SQInv s0 q0 (m s0) (pairs s0 (i :: gacc g))
+                                   | None => m s0 = 0 /\ pairs s0 (i :: gacc g) = []
+                                   end).
+          { intros s0. destruct (Z.eq_dec s0 s) as [->|N].
+            - rewrite e2e_get_put_same. exact HQ'.
+            - rewrite e2e_get_put_other by lia. rewrite (Hoth s0 N).
+              rewrite (pairs_cons_other s0 s i _ k j Ho) by lia. apply HS. }
+          destruct (rq_push q c) as [q' r] eqn:Epush. cbn [fst] in *.
+          destruct r; cbn [CI e2e_set e2e_pq e2e_il e2e_streams].
+          -- (* stored, pop loop *)
+             unfold gpops. rewrite Eg1. cbn [fst].
+             rewrite Eg1 in HJ1.
+             destruct (gpop_loop_J k0 (S (Z.to_nat (size (fst (push (e2e_pq st) (wrap32 i)))))) _ HJ1) as (A & B & _).
+             unfold e2e_pops. rewrite <- (gpop_loop_fst _ _ (mkGhost (gK g) (i :: gacc g) (gskip g))).
+             cbn [snd gacc] in B. rewrite B.
+             split; [rewrite <- surjective_pairing; exact A|]. repeat split; assumption.
+          -- rewrite Eg1. cbn [snd gacc]. rewrite Eg1 in HJ1. split; [assumption|split; [assumption|split; assumption]].
+          -- rewrite Eg1. cbn [snd gacc]. rewrite Eg1 in HJ1. split; [assumption|split; [assumption|split; assumption]].
+          -- rewrite Eg1. cbn [snd gacc]. rewrite Eg1 in HJ1. split; [assumption|split; [assumption|split; assumption]].
+        * (* buffer full: dropped *)
+          cbn [CI e2e_set e2e_pq e2e_il e2e_streams].
+          destruct (gpop_loop_J k0 (S (Z.to_nat (size (e2e_pq st)))) _ HJ) as (A & B & _).
+          unfold gpops, e2e_pops. cbn [fst]. rewrite <- (gpop_loop_fst _ _ g). cbn [snd] in B. rewrite B.
+          split; [rewrite <- surjective_pairing; exact A|]. repeat split; try assumption.
+          intros s0. destruct (Z.eq_dec s0 s) as [->|N]; [rewrite Hget; exact HQ|rewrite (Hoth s0 N); apply HS].
+      + (* not acceptable *)
+        cbn [CI e2e_set e2e_pq e2e_il e2e_streams].
+        pose proof (not_can_push_push _ _ Ecp) as Hpush.
+        destruct (gstep_J k0 (e2e_pq st, g) (EArr i) HJ Htsn) as [HJ1 _].
+        assert (Eg1 : gstep (e2e_pq st, g) (EArr i) = (fst (push (e2e_pq st) (wrap32 i)), g)).
+        { cbn [gstep]. rewrite Hpush. reflexivity. }
+        rewrite Eg1 in *. unfold gpops, e2e_pops. cbn [fst].
+        destruct (gpop_loop_J k0 (S (Z.to_nat (size (fst (push (e2e_pq st) (wrap32 i)))))) _ HJ1) as (A & B & _).
+        rewrite <- (gpop_loop_fst _ _ g). cbn [snd] in B. rewrite B.
+        split; [rewrite <- surjective_pairing; exact A|]. repeat split; assumption.
+    - (* read *)
+      unfold e2e_read. pose proof (HS s) as HSs.
+      destruct (e2e_get s (e2e_streams st)) as [q|] eqn:Eg; [|split; [assumption|split; [assumption|split; assumption]]].
+      pose proof (QInv_read s (T s) (nfr s) (frag s) (mppi s) (Hnfr s) q (m s) _ b HSs) as HR.
+      destruct (rq_read q b) as [q' r] eqn:Er. cbn [fst snd] in HR.
+      cbn [CI e2e_set e2e_pq e2e_il e2e_streams].
+      split; [exact HJ|]. split; [exact Hil|]. split; [exact HU|].
+      intros s0. destruct (Z.eq_dec s0 s) as [->|N].
+      + rewrite e2e_get_put_same. destruct r as [n ppi del| |].
+        * destruct HR as (_ & _ & HQ). rewrite Z.eqb_refl. exact HQ.
+        * subst q'. exact HSs.
+        * subst q'. exact HSs.
+      + rewrite e2e_get_put_other by lia.
+        destruct r; [replace (s0 =? s) with false by lia|..]; apply HS.
+  Qed.
+
+  (* the messages of stream s, from number m on *)
+  Definition smsgs (s m : Z) (n : nat) : list (Z * list rqchunk * Z) :=
+    map (fun i => (s, qmsg s (T s) (nfr s) (frag s) (mppi s) (m + Z.of_nat i), mppi s (m + Z.of_nat i))) (seq 0 n).
+
+  Definition outs_of (s : Z) (l : list (Z * list rqchunk * Z)) := filter (fun o => fst (fst o) =? s) l.
+
+  Lemma cout_spec k0 cs e s : CI k0 cs ->
+    (outs_of s (cout cs e) = [] /\ snd (cstep cs e) s = snd cs s) \/
+    (outs_of s (cout cs e) = [(s, qmsg s (T s) (nfr s) (frag s) (mppi s) (snd cs s), mppi s (snd cs s))] /\
+     snd (cstep cs e) s = snd cs s + 1).
+  Proof.
+    destruct cs as [[st g] m]. intros (_ & _ & _ & HS). destruct e as [i ok|s1 b]; cbn [cout cstep fst snd].
+    - left. split; [reflexivity|]. destruct (U i); [|reflexivity]. destruct (e2e_recv_data st r ok). reflexivity.
+    - pose proof (HS s1) as HS1. unfold e2e_read.
+      destruct (e2e_get s1 (e2e_streams st)) as [q|] eqn:Eg; [|left; split; reflexivity].
+      pose proof (QInv_read s1 (T s1) (nfr s1) (frag s1) (mppi s1) (Hnfr s1) q (m s1) _ b HS1) as HRd.
+      destruct (rq_read q b) as [q' r] eqn:Er. cbn [fst snd] in *.
+      destruct r as [n ppi del| |]; [|left; split; reflexivity|left; split; reflexivity].
+      destruct HRd as (-> & -> & _). unfold outs_of. cbn [filter fst].
+      destruct (s1 =? s) eqn:Es.
+      + assert (s1 = s) by lia. subst s1. right. rewrite Z.eqb_refl. split; reflexivity.
+      + left. replace (s =? s1) with false by lia. split; reflexivity.
+  Qed.
+
+  Lemma composed_prefix k0 : forall evs cs s,
+    CI k0 cs -> crun_ok cs evs ->
+    outs_of s (couts cs evs) = smsgs s (snd cs s) (length (outs_of s (couts cs evs))).
+  Proof.
+    induction evs as [|e t IH]; intros cs s HC HR; [reflexivity|]. cbn [couts crun_ok] in *.
+    destruct HR as [Hev HR]. pose proof (cstep_CI k0 cs e HC Hev) as HC'.
+    specialize (IH _ s HC' HR). unfold outs_of in *. rewrite filter_app.
+    destruct (cout_spec k0 cs e s HC) as [[E1 E2]|[E1 E2]]; unfold outs_of in E1; rewrite E1, E2 in *.
+    - cbn [app]. exact IH.
+    - cbn [app length]. rewrite IH at 1. unfold smsgs. cbn [seq map].
+      replace (snd cs s + Z.of_nat 0) with (snd cs s) by lia. f_equal.
+      rewrite <- seq_shift, map_map. apply map_ext. intros i.
+      replace (snd cs s + 1 + Z.of_nat i) with (snd cs s + Z.of_nat (S i)) by lia. reflexivity.
+  Qed.
+End Compose.
+
+(* ---------- from the initial state ---------- *)
+Definition e2e_cinit (peer_tsn buf maxent : Z) : cstate :=
+  (e2e_new peer_tsn buf maxent false, mkGhost (peer_tsn - 1) [] [], fun _ => 0).
+
+Lemma CI_init U own T nfr frag mppi peer_tsn buf maxent : in32 buf ->
+  CI U own T nfr frag mppi (peer_tsn - 1) (e2e_cinit peer_tsn buf maxent).
+Proof.
+  intros Hb. unfold e2e_cinit, CI, e2e_new. cbn [e2e_pq e2e_il e2e_streams gacc e2e_get].
+  pose proof (getMaxTSNOffset_range buf Hb) as Hr.
+  destruct (rpq_new_ok (getMaxTSNOffset buf)) as (HR & Hoff & _); [lia|].
+  split; [exact (ginit_J (rpq_new (getMaxTSNOffset buf)) (peer_tsn - 1) HR Hoff)|].
+  split; [reflexivity|]. split; [intros i []|]. intros s. split; reflexivity.
+Qed.
+
+(* the bytes and the payload protocol identifier handed to the application *)
+Definition e2e_bytes (o : Z * list rqchunk * Z) : Z * list Z * Z :=
+  (fst (fst o), concat (map rqc_data (snd (fst o))), snd o).
+
+Theorem e2e_ordered_prefix_data U own T nfr frag mppi :
+  (forall s k, 1 <= nfr s k < 2147483648) ->
+  (forall i c, U i = Some c ->
+     exists s k j, own i = Some (s, k, j) /\ 0 <= k /\ 0 <= j < nfr s k /\ i = T s k + j /\
+                   c = uchunk T nfr frag mppi s k j) ->
+  forall peer_tsn buf maxent evs s, in32 buf ->
+  crun_ok U own (e2e_cinit peer_tsn buf maxent) evs ->
+  let outs := outs_of s (couts U (e2e_cinit peer_tsn buf maxent) evs) in
+  map e2e_bytes outs =
+  map (fun i => (s, concat (map (frag s (Z.of_nat i)) (js (nfr s (Z.of_nat i)))), mppi s (Z.of_nat i)))
+      (seq 0 (length outs)).
+Proof.
+  intros Hnfr Hwf peer_tsn buf maxent evs s Hb Hok outs.
+  pose proof (composed_prefix U own T nfr frag mppi Hnfr Hwf (peer_tsn - 1) evs _ s
+                (CI_init U own T nfr frag mppi peer_tsn buf maxent Hb) Hok) as H.
+  fold outs in H. rewrite H at 1. unfold smsgs, e2e_cinit. cbn [snd]. rewrite map_map.
+  apply map_ext. intros i. unfold e2e_bytes. cbn [fst snd]. f_equal. f_equal.
+  unfold qmsg. rewrite map_map. reflexivity.
+Qed.
